@@ -8,9 +8,11 @@ import (
 	"path/filepath"
 	"sort"
 	"strings"
+	"unicode/utf8"
 
 	"github.com/pentops/j5/lib/verifshim/compile"
 	"github.com/pentops/j5/lib/verifshim/tool"
+	"google.golang.org/protobuf/encoding/prototext"
 	"google.golang.org/protobuf/proto"
 	"google.golang.org/protobuf/reflect/protodesc"
 	"google.golang.org/protobuf/reflect/protoreflect"
@@ -675,7 +677,7 @@ func runC05(cfg *vh.Config) error {
 
 	// ------------------------------------------------------------ stream 1b: hand-built descriptors (pinned classes)
 	// file-level string options whose value needs escaping (printFile wrote them raw before /repo b69d449)
-	for i, val := range []string{"plain/pkg;name", "a\"b", "back\\slash", "line\nbreak\ttab", "quote'single", "caf\u00e9 \U0001F600", "\"\\\n\r\x01\x7f"} {
+	for i, val := range []string{"plain/pkg;name", "a\"b", "back\\slash", "line\nbreak\ttab", "quote'single", "caf\u00e9 \U0001F600", "\"\\\n\r\x01\x7f", "nul\x000 digit", "end\x00", "\x00f\x00"} {
 		caseNo++
 		res.Count("hand-built")
 		distinct.Add("hand:" + val)
@@ -897,8 +899,11 @@ func runC05(cfg *vh.Config) error {
 	for i := range all {
 		all[i] = byte(i)
 	}
-	strs = append(strs, "", string(all), "plain", "\"", "\\", "'", "\x00", "\x7f", "\x80", "\xff", "é", "€", "😀", "\xed\xa0\x80", "\xf4\x90\x80\x80", "\xc0\x80", "\xe2\x82", "a\xffb", " \u009f", "�", " ", "tab\there", "nl\nhere", "cr\rhere", "^[a-z\"\\\\]+$")
-	pieces := []string{"a", "Z", "0", " ", "\"", "\\", "'", "\n", "\t", "\r", "\x01", "\x1f", "\x7f", "\x80", "\xbf", "\xc2", "\xc3\xa9", "\xe2\x82\xac", "\xf0\x9f\x98\x80", "\xed\xa0\x80", "\xff", "\xfe", "\u0080", "߿", "ࠀ", "￿", "\U00010000", "\U0010ffff", "x1", "\\n", "\\x", "?"}
+	strs = append(strs, "", string(all), "plain", "\"", "\\", "'", "\x00", "\x7f", "\x80", "\xff", "é", "€", "😀", "\xed\xa0\x80", "\xf4\x90\x80\x80", "\xc0\x80", "\xe2\x82", "a\xffb", " \u009f", "�", " ", "tab\there", "nl\nhere", "cr\rhere", "^[a-z\"\\\\]+$",
+		// NUL followed by a digit / hex digit and NUL at the end (a \x escape that is not exactly two digits swallows or
+		// leaves a digit)
+		"\x000", "\x00f", "\x00A", "a\x00", "\x00\x00", "\x009z", "0\x000\x00")
+	pieces := []string{"a", "Z", "0", " ", "\"", "\\", "'", "\n", "\t", "\r", "\x01", "\x1f", "\x7f", "\x80", "\xbf", "\xc2", "\xc3\xa9", "\xe2\x82\xac", "\xf0\x9f\x98\x80", "\xed\xa0\x80", "\xff", "\xfe", "\u0080", "߿", "ࠀ", "￿", "\U00010000", "\U0010ffff", "x1", "\\n", "\\x", "?", "\x00", "\x000", "\x00f", "\x00B", "7", "c"}
 	for len(strs) < nLit {
 		switch rl.Intn(3) {
 		case 0:
@@ -919,7 +924,13 @@ func runC05(cfg *vh.Config) error {
 		// the real protocompile lexer on the printed literal (file option java_package; bytes round trip
 		// needs valid UTF-8 for a string field, so invalid inputs are only checked against the model)
 		lexOK, lexVal := lexWithProtocompile(ctx, lit)
-		validUTF8 := strings.ToValidUTF8(s, "\x00\x01") == s && !strings.ContainsRune(s, 0)
+		validUTF8 := utf8.ValidString(s)
+		// the printed literal read back by the real text-format unescaper (google.golang.org/protobuf/encoding/prototext,
+		// a bytes field as carrier: every byte string incl. NUL and invalid UTF-8 is a legal value): the bytes the
+		// literal denotes must be the bytes it was printed from
+		if back, err := prototextUnescape(lit); err != nil || back != s {
+			res.Fail(vh.Failure{Case: caseNo, Stream: "literal", Sig: "C05 string literal printed by prototextString is not read back as the same bytes by the prototext unescaper", Clause: "every option and extension value", Input: fmt.Sprintf("%q", s), Got: fmt.Sprintf("literal %s read back as %q (err %v)", lit, back, err)})
+		}
 		if validUTF8 && (!lexOK || lexVal != s) {
 			res.Fail(vh.Failure{Case: caseNo, Stream: "literal", Sig: "C05 string literal printed by prototextString is not read back by the protocompile lexer", Clause: "every option and extension value", Input: fmt.Sprintf("%q", s), Got: fmt.Sprintf("literal %s lexed ok=%v %q", lit, lexOK, lexVal)})
 		}
@@ -1109,4 +1120,19 @@ func lexWithProtocompile(ctx context.Context, lit string) (ok bool, val string) 
 	}
 	opts, _ := files[0].Options().(*descriptorpb.FileOptions)
 	return true, opts.GetJavaPackage()
+}
+
+// prototextUnescape reads a printed string literal with the real text-format parser of google.golang.org/protobuf
+// (UninterpretedOption.string_value, a bytes field, is the carrier) and returns the bytes it denotes.
+func prototextUnescape(lit string) (val string, err error) {
+	defer func() {
+		if p := recover(); p != nil {
+			err = fmt.Errorf("panic: %v", p)
+		}
+	}()
+	var m descriptorpb.UninterpretedOption
+	if err := prototext.Unmarshal([]byte("string_value: "+lit), &m); err != nil {
+		return "", err
+	}
+	return string(m.GetStringValue()), nil
 }
